@@ -141,10 +141,54 @@ class World(object):
             fb = spec['fb']
             spec.clear(); spec.update(fb)
             return self.mat(actor, spec)
+        if t == 'enc':       # a value given in codec encoding (snapshots of objects)
+            return self.from_enc(actor, spec['v'])
+        if t == 'matrixraw':
+            m = ctx.matrix(spec['rows'], spec['cols'])
+            k = 0
+            for i in range(spec['rows']):
+                for j in range(spec['cols']):
+                    m[i, j] = self.from_enc(actor, spec['v'][k]); k += 1
+            return m
         if t == 'call':      # nested constructor call evaluated at materialisation: f(*args)
             f = getattr(ctx, spec['f'])
             return f(*[self.mat(actor, s) for s in spec['v']])
         raise ValueError('bad arg spec %r' % (spec,))
+
+    def from_enc(self, actor, e):
+        ctx = self.actors[actor]
+        k = e[0]
+        if k == 'mpf':
+            if actor == 'fp':
+                return float(self.actors['mp'].make_mpf(codec.dec_raw_mpf(e)))
+            return ctx.make_mpf(codec.dec_raw_mpf(e))
+        if k == 'mpc':
+            if actor == 'fp':
+                return complex(float(self.actors['mp'].make_mpf(codec.dec_raw_mpf(e[1]))), float(self.actors['mp'].make_mpf(codec.dec_raw_mpf(e[2]))))
+            return ctx.make_mpc((codec.dec_raw_mpf(e[1]), codec.dec_raw_mpf(e[2])))
+        if k == 'int':
+            return int(e[1])
+        if k == 'float':
+            return float.fromhex(e[1])
+        if k == 'complex':
+            return complex(float.fromhex(e[1]), float.fromhex(e[2]))
+        if k == 'bool':
+            return bool(e[1])
+        if k == 'none':
+            return None
+        if k == 'str':
+            return e[1]
+        if k in ('list', 'tuple'):
+            v = [self.from_enc(actor, x) for x in e[1]]
+            return v if k == 'list' else tuple(v)
+        if k == 'matrix':
+            m = ctx.matrix(e[1], e[2])
+            n = 0
+            for i in range(e[1]):
+                for j in range(e[2]):
+                    m[i, j] = self.from_enc(actor, e[3][n]); n += 1
+            return m
+        raise ValueError('cannot materialise %r' % (e[:2],))
 
     def _mk_mpf(self, actor, ctx, v):
         sign, hexman, exp = v[0], v[1], v[2]
